@@ -1,17 +1,189 @@
 # Table consumed by gen_manifest.py.  claim(pid, technique, level text, level note, design ref) / na(pid, reason)
 
-claim(
-    "C13",
-    "must-analysis (invalidate-after-write on all exits) + call-graph non-interference scan",
-    "For all edit/solve histories: every Problem method that writes a model field calls the invalidator after its "
-    "last write on every normal and exceptional exit; every memo attribute is reset by the invalidator; no function "
-    "reachable from a cache producer reads mutable Variable state; lazy entries go into the published cache object. "
-    "A structural non-interference argument, which is the quantifier (all interleavings) tests cannot reach.",
-    "Decides the structural clause only; equality of numeric solve results with a fresh problem additionally rests on "
-    "solver determinism. Method calls on unknown receivers are resolved to every package method of that name.",
-    "DESIGN.md §3 C13",
-)
+_TB = ("Trusted base: CPython's ast parser, the optyx_sa checker (validated both ways by the mutant catalogue on every "
+       "thorough run), reference tables F9 (textbook derivatives; documented SciPy/NumPy API facts). ")
 
-_PENDING = "check under construction in this session (design in DESIGN.md §3); not claimed until it runs clean"
-for _p in ["C01","C02","C03","C04","C05","C06","C07","C08","C09","C10","C11","C12","C14","C15","C16","C17","C18","C19","C20"]:
-    na(_p, _PENDING)
+claim("C01",
+      "dispatch-coverage + definite-assignment typestate + closure def-use + canonical-term agreement (evaluate vs closure)",
+      "All arms of both evaluator builders at once: every concrete Expression kind has a compiler arm (or is delegated), "
+      "_hash is definitely assigned for every kind that inherits Expression.__hash__, each binary arm applies the Python "
+      "operator of its literal to left(x), right(x) (roles traced through default-argument bindings and the iterative "
+      "builder's push/pop order), every x[...] is indexed through the caller's name->position map, Parameters are read at "
+      "call time, and evaluate() and the compiled closure of each reduction kind denote one canonical term. By structural "
+      "induction these local facts give compile = evaluate for all compositions and variable orders.",
+      _TB + "Not decided: floating-point equality of the two evaluation routes, domain errors, broadcasting of array constants. "
+      "The evaluate<->closure comparison uses a finite idiom table; code outside it is exit 2 (cannot decide).",
+      "DESIGN.md §3 C01")
+claim("C02",
+      "rule-term extraction + exact rational normal form (Q(atoms)/relations) against textbook derivatives",
+      "The term built by every binary/unary arm of both gradient walkers (incl. the shared unary helper), by every "
+      "simplifier early-return and by the element-wise registered rules is translated syntactically (three dialects) and "
+      "compared with D f in an exact normal form, so equivalent rewrites are silent and a wrong sign / dropped chain factor "
+      "/ swapped operand is reported; recursion uses the same wrt; leaves, coverage, registry-first, absent=>0, membership "
+      "partition, vector identity (never by name) and closure of the rule set are shape rules. Structural induction then "
+      "covers all compositions.",
+      _TB + "Not decided: numeric evaluation of derivative trees, non-differentiable points (C19). 0**n -> 0 in _simplify_pow is "
+      "accepted as an identity for n > 0 only.",
+      "DESIGN.md §3 C02")
+claim("C03",
+      "closure gather/scatter dataflow + normal-form terms of vectorised closures + truth table over membership tests",
+      "Every closure of the vectorised derivative factories either gathers x[indices] and scatters into the same positions "
+      "of a zero array, or uses x directly under the guard indices == arange(n); its element-wise NumPy term equals the "
+      "textbook derivative in the exact normal form; every jacobian_row is compared with the rule of its class (terms; "
+      "truth table over in-left/in-right for DotProduct; Constant-guarded derivative laws for BinaryOp; container-operand "
+      "requirement); constant / scaled-row fast paths are checked for their guards.",
+      _TB + "Not decided: run-time values and rounding. Some row/fast-path rules are pinned to today's statement shapes.",
+      "DESIGN.md §3 C03")
+claim("C04",
+      "soundness of an abstract interpreter, arm by arm (answer forms + path formulas decided by truth table)",
+      "Every `return E` / `result_stack.append(E)` of both degree analysers is classified (CONST, NONE, CHILD, MAX, SUM, "
+      "SCALE, INT_OF(power), MAX-OVER-ELEMENTS, DELEGATE) together with the guards on its path; a finite answer must "
+      "dominate the node's polynomial degree and the beliefs it needs (Constant / numeric / integral / non-negative "
+      "exponent, constant denominator, variable-container operands) must be implied by the path formula. None is always "
+      "sound. Consumers (is_linear, is_quadratic, sentinel, Problem._is_linear_problem) are shape rules.",
+      _TB + "Not decided: tightness (over-reporting is allowed), cancellation.",
+      "DESIGN.md §3 C04")
+claim("C05",
+      "abstract execution of the three LP extractors over a finite shape domain, results compared in the exact normal form",
+      "For every node shape the degree analysis accepts as linear (operand classes Const / degree-0 non-Constant / "
+      "degree-1, exponents 0/1/2, vector operand kinds) the code of each extractor is interpreted on the abstract shape "
+      "(guards decided from the shape, results as rational terms in the children's coefficient/constant/value symbols) and "
+      "compared with the affine-form algebra; a silent default on an accepted shape is a wrong model. Shortcut guards, "
+      "sense handling (<=, >= negated, ==) and column/bounds/name alignment are shape rules.",
+      _TB + "Not decided: numeric coefficient values; sufficiency of the O(1) shortcut guards rests on views being monotone.",
+      "DESIGN.md §3 C05")
+claim("C06",
+      "path conditions of every OPTIMAL site as propositional formulas, decided by truth table; loop-shape rules",
+      "The guards dominating every SolverStatus.OPTIMAL site (if/elif ladder + earlier early-returns) are turned into a "
+      "formula over their atomic tests; under the side condition 'the violation flag can only be true if a feasibility loop "
+      "ran', every assignment reaching the site implies: no constraint records, or the loop ran and found no violation; "
+      "likewise bounds were passed to the backend or checked afterwards. The loop is checked for all-records, returned "
+      "point, and the SciPy sign convention; the LP ladder against linprog's status codes.",
+      _TB + "SciPy's result.success is trusted for HiGHS; tolerance size and the numbers SciPy returns are not decided.",
+      "DESIGN.md §3 C06")
+claim("C07",
+      "def-use provenance of objective_value / values; negate-unnegate guard pairing; handle index maps",
+      "objective_value derives from the backend's fun where the function handed over denotes the whole objective (linprog: "
+      "plus the constant term), the objective handed to the backend and the reported value are sign-flipped under the "
+      "identical guard, one variable list defines both the backend columns and the name->value dictionary, and Solution "
+      "handles write position i / [i, j] from the i-th / (i, j)-th variable.",
+      _TB + "Not decided: floating-point equality of fun and a re-evaluation.",
+      "DESIGN.md §3 C07")
+claim("C08",
+      "WIRING CLAUSE ONLY: truth table over the routing guards of Problem.solve; keyword-to-LPData-field def-use; status codes",
+      "Decides only the wiring: which method strings reach which solver entry (auto iff linear; linprog/highs* to the LP "
+      "solver with the variant forwarded; none leaks to minimize), solve_lp re-validates linearity, every linprog keyword "
+      "is the LPData field of the same name (pairs together, c negated iff max, bounds possibly read per solve), status "
+      "ladder = SciPy's codes. Equality of the optimum with an independent formulation follows only in composition with "
+      "C04/C05/C07 and from HiGHS, which is not analysed.",
+      _TB + "The behavioural core of this property (same optimum/status as a reference LP solve) is a run-time quantity outside "
+      "static analysis; this check claims the wiring clause only.",
+      "DESIGN.md §3 C08, §7")
+claim("C09",
+      "WIRING CLAUSE ONLY: keyword def-use of minimize(), capability literal sets, interval reasoning for x0, selector path conditions",
+      "Decides only the wiring: fun/jac/hess/bounds/constraints/x0/method/tol come from the cache entries / arguments of the "
+      "same role; objective and gradient are compiled from one expression object against one variable list; maximise "
+      "negation is applied under one guard to objective, gradient, Hessian and reported value; jac withheld exactly for "
+      "derivative-free methods; bounds are (lb or -inf, ub or +inf) in solver order; the start point lies inside finite "
+      "bounds in all four arms; auto-selection never picks a method that ignores constraints; success and no violation "
+      "=> OPTIMAL.",
+      _TB + "Convergence, accuracy and equality of iterates with a hand-written SciPy call are run-time facts and are not decided.",
+      "DESIGN.md §3 C09, §7")
+claim("C10",
+      "operator/sense literal agreement over all comparison constructors; per-sense (type, sign fun, sign jac) table; late-binding rule",
+      "All 15 comparison constructors build the sense of their operator with self on the left; normalisation is lhs - rhs; "
+      "other senses are rejected; the violation table is max(0,v) / max(0,-v) / |v|; element-wise builders pair equal "
+      "indices; each SciPy record has the (type, sign) of its sense with fun and jac compiled from the same expression and "
+      "carrying the same sign; no closure created in a loop anywhere in the package reads a loop-variant name as a free "
+      "variable.",
+      _TB + "Not decided: NumPy-scalar reflected comparisons (dispatched by NumPy), value-level broadcasting.",
+      "DESIGN.md §3 C10")
+claim("C11",
+      "FOUR STRUCTURAL CLAUSES ONLY: operand order of (reflected) operators, raising size guards, index maps of views, vector identity",
+      "Claims only necessary structural conditions: operand order and operator literal of every arithmetic dunder of the "
+      "five operator-bearing classes; a raising size check before every pairing of two operand element lists and a raising "
+      "default of every operand-kind ladder; index expressions of transpose / symmetric / diagonal / row / column / "
+      "matrix-vector constructions; 'same vector' decided by identity or variable lists (never by name) and slot-complete, "
+      "variable-sharing view constructors.",
+      _TB + "The behavioural core (equality with NumPy for all shapes and values) is out of reach of static analysis and is NOT "
+      "claimed. Index-map rules are pinned to today's statement shapes.",
+      "DESIGN.md §3 C11, §7")
+claim("C12",
+      "classification of every .value read (path formula implies isinstance(.., Constant), or call-time closure); degree arms",
+      "Non-interference over all set/solve/evaluate histories: every read of a node's .value in code that builds closures, "
+      "caches, rule terms, LP data or degrees is dominated by isinstance(<that object>, Constant) (Parameter is not a "
+      "Constant) or sits in a call-time closure that captured the Parameter object; Parameters have no polynomial degree "
+      "so the LP path with its numeric cache is unreachable; Parameter.set is the only writer.",
+      _TB + "Not decided: numeric results after an update. MatrixParameter hands out snapshots by design.",
+      "DESIGN.md §3 C12")
+claim("C13",
+      "must-analysis (invalidate after last write on all normal and exceptional exits) + field-sensitive taint of cached artefacts",
+      "For all edit/solve histories: every Problem method that writes a model field calls the invalidator after its last "
+      "write on every normal and exceptional exit; every memo attribute is reset by the invalidator; no mutable Variable "
+      "state (lb/ub/domain) flows into a part of a cached artefact that a solver path reads back; lazy entries go into the "
+      "published cache object; mutable model fields are not returned by reference.",
+      _TB + "Method calls on unknown receivers resolve to every package method of that name (over-approximation). Equality of "
+      "numeric results with a fresh problem additionally rests on solver determinism.",
+      "DESIGN.md §3 C13")
+claim("C14",
+      "cache-key congruence: attributes read / objects escaping per name-equal key class; purity scan over the call graph",
+      "For every memoised function and every key component of a class that compares by name, the arm handling a root of that "
+      "class reads only the attributes __eq__ compares and lets the object stay in the result only if it has no "
+      "call-time-read state, unless every call site excludes such roots; everything reachable from a cached function reads "
+      "no run-time-mutable module state. Holds for all histories and any cache capacity (eviction neutrality).",
+      _TB + "User code registering gradient rules at run time is outside the property.",
+      "DESIGN.md §3 C14")
+claim("C15",
+      "sibling cross-check recursive vs iterative: coverage, per-arm term/form equality, stack discipline, switch direction",
+      "Each iterative walker handles (or hands to its sibling) every node kind and operator its recursive sibling handles; "
+      "arm by arm they build the same derivative term (exact normal form) / degree form; push order matches pop order; the "
+      "four depth switches compare in the same direction with equal thresholds; user trees are traversed through the "
+      "switching entries; no handler around a traversal swallows RecursionError.",
+      _TB + "Not decided: that no RecursionError occurs below the threshold (interpreter frame budget); right-deep trees (the "
+      "estimator follows the left spine by design).",
+      "DESIGN.md §3 C15")
+claim("C16",
+      "per-node slot completeness of get_variables; arm-wise conservativeness of walker and shortcut; sorted-store rule",
+      "get_variables of every kind covers every operand slot its constructor declares (both operand kinds where admitted); "
+      "the discovery walker handles or delegates every kind and pushes all children; every arm of the single-vector "
+      "shortcut records its VectorVariable operand, pushes all children or gives up, unknown kinds give up, sources are "
+      "compared by identity and all constraints must agree; every store into Problem._variables is sorted by the natural "
+      "key; bounds are read per variable in that order.",
+      _TB + "Not decided: run-time contents for a particular model.",
+      "DESIGN.md §3 C16")
+claim("C17",
+      "Hessian = gradient of gradient index alignment + closure of the rule set + normal-form second derivatives of the shortcuts",
+      "H[i][j] = d grad[i] / d variables[j] over one list, which by C02 is the true second derivative provided every node "
+      "kind emitted by a first-pass rule has a rule; the compiled closure writes element (i, j) to [i, j] and mirrors it; "
+      "every diagonal shortcut's term equals D D f in the exact normal form and is placed at [indices, indices] (dense "
+      "variants under the full-vector guard); the Hessian for SciPy is negated iff maximise.",
+      _TB + "Not decided: numeric values; entry-by-entry symmetry of the symbolic matrix (follows for C2 functions).",
+      "DESIGN.md §3 C17")
+claim("C18",
+      "must-analysis: a well-formed integrality block dominates every backend call; strict forwarding on all routes",
+      "In every function that calls scipy.optimize.minimize / linprog (found through import resolution) a well-formed "
+      "integrality block (filter problem.variables on domain; strict -> raise IntegerVariableError with exactly those names; "
+      "else warnings.warn naming exactly those) has run on every path to the call; all in-package calls of those entries "
+      "forward strict; Variable.__init__ under domain == 'binary' ends with lb = 0, ub = 1 on every exit; containers forward "
+      "domain; views copy every slot.",
+      _TB + "Not decided: whether the warning is displayed (warning filters).",
+      "DESIGN.md §3 C18")
+claim("C19",
+      "must-pass-through: singular-primitive classification (sign analysis) of every derivative closure => sanitised return",
+      "Derivative factories are discovered by role; each returned closure's NumPy term is classified (division by / log / "
+      "sqrt / tan / non-literal power of something that can vanish, or a call of a compiled element function = singular); "
+      "singular closures must return _sanitize_derivatives(whole output) on every return; dense/sparse siblings agree; the "
+      "sanitiser's replacement table (NaN->0, +-inf->+-L) and fast-path guard are checked; solver-side jac/hess callables "
+      "originate from these factories.",
+      _TB + "Not decided: overflow of regular primitives at huge finite arguments (exp(800)).",
+      "DESIGN.md §3 C19")
+claim("C20",
+      "typestate (save / override / restore on every exit incl. every implicit exception) + publish-complete rule for caches",
+      "For every interruption point: each process-global write in the package (inventory) is restored from the value saved "
+      "before the override on all exits of its function, where every statement containing a call, subscript, yield or "
+      "arithmetic is an implicit exception exit; caches are published by one assignment of a finished value and every dict "
+      "key a consumer reads unconditionally is present at publication; handlers around SciPy backends return FAILED or "
+      "re-raise.",
+      _TB + "Not decided: SciPy's own global state after an exception; the one-bytecode window between reading the old hook and "
+      "entering the try block.",
+      "DESIGN.md §3 C20")
